@@ -76,6 +76,7 @@ func (c *Ctx) execBlock(st *State, list []ast.Stmt) outcome {
 // exec runs one statement on st (mutated in place for straight-line statements).
 func (c *Ctx) exec(st *State, s ast.Stmt, label string) outcome {
 	c.curPos = s.Pos()
+	c.checkAtStmt(st, s)
 	switch x := s.(type) {
 	case *ast.BlockStmt:
 		return c.execBlock(st, x.List)
